@@ -8,8 +8,8 @@ use blsful::*;
 use rand_core::SeedableRng;
 use serde::{de::DeserializeOwned, Serialize};
 
-pub const STD_CODECS: [Codec; 6] = [Codec::Bytes, Codec::VecOwned, Codec::VecRef, Codec::BoxSlice, Codec::Bare, Codec::Json];
-pub const SCALAR_CODECS: [Codec; 8] = [Codec::Bytes, Codec::VecOwned, Codec::VecRef, Codec::BoxSlice, Codec::Bare, Codec::Json, Codec::Be, Codec::Le];
+pub const STD_CODECS: [Codec; 8] = [Codec::Bytes, Codec::VecOwned, Codec::VecRef, Codec::BoxSlice, Codec::Bare, Codec::Json, Codec::JsonReader, Codec::JsonValue];
+pub const SCALAR_CODECS: [Codec; 10] = [Codec::Bytes, Codec::VecOwned, Codec::VecRef, Codec::BoxSlice, Codec::Bare, Codec::Json, Codec::JsonReader, Codec::JsonValue, Codec::Be, Codec::Le];
 
 /// Everything the checks need to know about one data type.
 pub trait Wire: Sized + Clone + PartialEq + Serialize + DeserializeOwned {
@@ -41,7 +41,8 @@ pub trait Wire: Sized + Clone + PartialEq + Serialize + DeserializeOwned {
             Codec::Bytes | Codec::VecRef | Codec::BoxSlice => Ok(self.to_b()),
             Codec::VecOwned => Ok(self.clone().to_b_owned()),
             Codec::Bare => serde_bare::to_vec(self).map_err(|e| e.to_string()),
-            Codec::Json => serde_json::to_vec(self).map_err(|e| e.to_string()),
+            Codec::Json | Codec::JsonReader => serde_json::to_vec(self).map_err(|e| e.to_string()),
+            Codec::JsonValue => serde_json::to_value(self).map(|v| v.to_string().into_bytes()).map_err(|e| e.to_string()),
             Codec::Be => self.to_endian(false).ok_or("no be".into()),
             Codec::Le => self.to_endian(true).ok_or("no le".into()),
             Codec::None => Err("none".into()),
@@ -55,6 +56,8 @@ pub trait Wire: Sized + Clone + PartialEq + Serialize + DeserializeOwned {
             Codec::BoxSlice => Self::from_box(b.to_vec().into_boxed_slice()),
             Codec::Bare => serde_bare::from_slice(b).map_err(|e| e.to_string()),
             Codec::Json => serde_json::from_slice(b).map_err(|e| e.to_string()),
+            Codec::JsonReader => serde_json::from_reader(b).map_err(|e| e.to_string()),
+            Codec::JsonValue => serde_json::from_slice::<serde_json::Value>(b).and_then(serde_json::from_value).map_err(|e| e.to_string()),
             Codec::Be => Self::from_endian(b, false).unwrap_or(Err("no be".into())),
             Codec::Le => Self::from_endian(b, true).unwrap_or(Err("no le".into())),
             Codec::None => Err("none".into()),
@@ -329,7 +332,7 @@ impl Wire for SecretKeyEnum {
 impl Wire for SignatureSchemes {
     const FIXED: bool = false;
     fn codecs() -> Vec<Codec> {
-        vec![Codec::Bytes, Codec::Bare, Codec::Json]
+        vec![Codec::Bytes, Codec::Bare, Codec::Json, Codec::JsonReader, Codec::JsonValue]
     }
     fn to_b(&self) -> Vec<u8> {
         vec![*self as u8]
@@ -359,7 +362,7 @@ impl Wire for SignatureSchemes {
 impl Wire for Bls12381 {
     const FIXED: bool = false;
     fn codecs() -> Vec<Codec> {
-        vec![Codec::Bytes, Codec::Bare, Codec::Json]
+        vec![Codec::Bytes, Codec::Bare, Codec::Json, Codec::JsonReader, Codec::JsonValue]
     }
     fn to_b(&self) -> Vec<u8> {
         vec![u8::from(self)]
@@ -635,7 +638,12 @@ impl<C: Suite> Consume<Ctx<C>> for PublicKeyShare<C> {
         let a = PublicKey::<C>::from_shares(&[*self, x.pk_shares[if self.0.identifier() == x.pk_shares[0].0.identifier() { 1 } else { 0 }]]).is_ok();
         let b = self.verify(&x.sig_shares[0], &x.msg).is_ok();
         let c = x.sc_shares[0].verify(self, &x.sc).is_ok();
-        Some(a || b || c)
+        // trait level share verification (with the identifier of the honest signature share so that the id check passes)
+        let mut me = self.0;
+        *me.identifier_mut() = x.sig_shares[0].as_raw_value().identifier();
+        let d = <C as BlsSignaturePop>::partial_verify(me, *x.sig_shares[0].as_raw_value(), &x.msg).is_ok();
+        let e = <C as BlsSignatureBasic>::partial_verify(me, *x.sig_shares[0].as_raw_value(), &x.msg).is_ok() && false;
+        Some(a || b || c || d || e)
     }
 }
 impl<C: Suite> Consume<Ctx<C>> for SignatureShare<C> {
@@ -657,7 +665,12 @@ impl<C: Suite> Consume<Ctx<C>> for SignatureShare<C> {
         let a = Signature::<C>::from_shares(&[*self, other]).is_ok();
         let b = x.pk_shares[0].verify(self, &x.msg).is_ok();
         let c = self.verify(&x.pk_shares[0], &x.msg).is_ok();
-        Some(a || b || c)
+        // trait level share verification (identifier aligned with the key share so that the id check passes)
+        let mut raw = *self.as_raw_value();
+        *raw.identifier_mut() = x.pk_shares[0].0.identifier();
+        let d = <C as BlsSignaturePop>::partial_verify(x.pk_shares[0].0, raw, &x.msg).is_ok();
+        let e = <C as BlsSignatureCore>::core_signature_share_verify(x.pk_shares[0].0, raw, &x.msg, <C as BlsSignaturePop>::SIG_DST).is_ok();
+        Some(a || b || c || d || e)
     }
 }
 impl<C: Suite> Consume<Ctx<C>> for SignDecryptionShare<C> {
